@@ -1,11 +1,12 @@
 #!/bin/bash
 # tools/try_mutant.sh <patch> <ID...>  -- applies a seeded change to /repo, runs the named checks (quick), and undoes it.
 PATCH="$1"; shift
-cd /repo || exit 2
-git diff --quiet || { echo "/repo has uncommitted changes"; exit 2; }
+REPO="${VERIF_REPO:-/repo}"; HOME_V="${VERIF_HOME:-/verif}"
+cd "$REPO" || exit 2
+git diff --quiet || { echo "$REPO has uncommitted changes"; exit 2; }
 git apply "$PATCH" || { echo "patch does not apply"; exit 2; }
 for id in "$@"; do
-  out=$(cd /verif && VERIF_DIR_OVERRIDE=/tmp/mut/scratch_verif ./check "$id" quick 2>&1); code=$?
+  out=$(cd "$HOME_V" && VERIF_DIR_OVERRIDE="${VERIF_SCRATCH:-/tmp/mut/scratch_verif}" ./check "$id" quick 2>&1); code=$?
   echo "== $id exit=$code"; echo "$out" | grep -E "VIOLATION|signature|INCONCLUSIVE|INFRA" | head -6
 done
 git checkout -- . 
